@@ -59,6 +59,10 @@ class State:
 
 
 def _org_mentions(o, hit):
+    if o[0] == "when":
+        if any(hit(pth) for pth, _ in o[3]):
+            return True
+        return o[2] is not None and _org_mentions(o[2], hit)
     for x in o[1:]:
         if isinstance(x, tuple) and len(x) == 2 and x[0] == "p" and hit(x[1]):
             return True
@@ -91,6 +95,25 @@ def join(a, b):
             iv[k] = w
     opt = {k: v for k, v in a.opt.items() if b.opt.get(k) == v}
     org = {k: v for k, v in a.org.items() if b.org.get(k) == v}
+    # short-circuit booleans (`x.is_some() && y.is_some()`, or a helper returning it, once inlined): the local is the constant false on every
+    # path but one; if it is true after the join it was defined on that one path, so what was known there holds (dually for `||`)
+    for k in set(a.iv) | set(b.iv):
+        if k in org:
+            continue
+        for (s1, s2) in ((a, b), (b, a)):
+            c = s2.iv.get(k)
+            v1 = s1.iv.get(k)
+            if c in ((0, 0), (1, 1)) and v1 is not None and v1 != c and v1[0] >= 0 and v1[1] <= 1 and s2.org.get(k) is None:
+                truth = c == (0, 0)          # the value the local can only have on the s1 side
+                o1 = s1.org.get(k)
+                if o1 is not None and o1[0] == "when":
+                    if o1[1] == truth:
+                        org[k] = o1
+                    break
+                snap = tuple(sorted(s1.opt.items()))
+                if snap or o1 is not None:
+                    org[k] = ("when", truth, o1, snap)
+                break
     return State(iv, a.rel & b.rel, opt, org)
 
 
@@ -535,6 +558,23 @@ class Ranges:
         st.iv[p] = (1, 1) if truth else (0, 0)
         o = st.org.get(p)
         if o is None:
+            return True
+        if o[0] == "when":
+            if truth != o[1]:
+                return True
+            for pth, var in o[3]:
+                cur = st.opt.get(pth)
+                if cur is not None and cur != var:
+                    return False
+                st.opt[pth] = var
+            if o[2] is not None:
+                saved = st.org.get(p)
+                st.org[p] = o[2]
+                try:
+                    return self.refine_bool(st, src, truth)
+                finally:
+                    if saved is not None:
+                        st.org[p] = saved
             return True
         if o[0] == "cmp":
             return self.refine_cmp(st, o[1], o[2], o[3], truth)
@@ -1147,9 +1187,13 @@ class Ranges:
                 keep_len = re.search(r"::(get_mut|iter_mut|index_mut|as_mut|first_mut|last_mut|as_mut_slice|deref_mut|copy_from_slice|fill|sort|sort_by|reverse|swap|get|borrow_mut|lock|write_all|flush)$", cp) is not None
                 if q is not None:
                     saved = st.iv.get(q + "#len") if keep_len else None
+                    # Option::as_mut / as_deref_mut / Result::as_mut hand out a reference to the payload: the variant cannot change through them
+                    saved_opt = st.opt.get(q) if re.search(r"(Option|Result)(<.*>)?::(as_mut|as_deref_mut)$", cp) else None
                     st.kill(q)
                     if saved is not None:
                         st.iv[q + "#len"] = saved
+                    if saved_opt is not None:
+                        st.opt[q] = saved_opt
                     if re.search(r"Vec::push$|VecDeque::push_back$|VecDeque::push_front$", cp):
                         pass
                 else:
